@@ -5,6 +5,7 @@ import DDV.Gen.AddrSem
 import DDV.Props.C05
 import DDV.Gen.Emit
 import DDV.Gen.Lemmas.Refs
+import DDV.Gen.Lemmas.LowerTree
 import DDV.Gen.Lemmas.Claimed
 
 namespace DDV.Props.C04
@@ -195,5 +196,73 @@ theorem command_ref_address (n : Names) (cfg : GlobalConfig) (all : List Object)
       m.repeat_ = (match ov.repeat_ with | some x => some x | none => c.repeat_) := by
   obtain ⟨m, h, h1, _, _, h4, h5, _⟩ := command_ref_method n cfg all rf ov c t fuel hov ht hc
   exact ⟨m, h, h1, h4, h5⟩
+
+/-! ### From the definition to the bus: ref-free trees -/
+
+theorem treeChain_valid {os : List Object} {tch : List (Object × Nat)} (h : TreeChain os tch) :
+    RefFreeList os → ∀ x ∈ tch, RefFree x.1 ∧ x.2 < objCount x.1 := by
+  induction h with
+  | leaf hm hb hi =>
+    intro hrf x hx
+    simp only [List.mem_singleton] at hx
+    subst hx
+    exact ⟨refFree_of_mem hrf hm, hi⟩
+  | step hm hi hrest ih =>
+    intro hrf x hx
+    have hr := refFree_of_mem hrf hm
+    rcases List.mem_cons.1 hx with rfl | hx
+    · exact ⟨hr, hi⟩
+    · unfold RefFree at hr
+      exact ih hr x hx
+
+/-- **The address of an instance of the definition.** For a ref-free object tree and any path
+    through it — enclosing blocks from the outside in, each with a valid repeat index, down to a
+    register / command / buffer with a valid index of its own — the chain of generated accessor
+    calls for that path computes exactly
+    `Σ (block offset + block index × block stride) + object address + object index × object stride`
+    in the integers (negative offsets, addresses and strides included). -/
+theorem definition_instance_address (n : Names) (cfg : GlobalConfig) (os : List Object)
+    (tch : List (Object × Nat)) (ht : TreeChain os tch) (hrf : RefFreeList os) :
+    evalChain (tch.map (liftStep n cfg)) 0 = some (treeAddress tch 0) := by
+  have hv := treeChain_valid ht hrf
+  have hsome : (evalChain (tch.map (liftStep n cfg)) 0).isSome := by
+    rw [chain_defined_iff]
+    intro mi hmi
+    obtain ⟨x, hx, rfl⟩ := List.mem_map.1 hmi
+    obtain ⟨h1, h2⟩ := hv x hx
+    simp only [liftStep]
+    rw [← methodOf_count n cfg x.1 h1] at h2
+    unfold Method.addrAt
+    unfold Method.count at h2
+    cases hr : (methodOf n cfg x.1).repeat_ with
+    | none => rw [hr] at h2; simp only at h2; have : x.2 = 0 := by omega
+              simp [this]
+    | some r => rw [hr] at h2; simp only at h2; simp [h2]
+  cases he : evalChain (tch.map (liftStep n cfg)) 0 with
+  | none => rw [he] at hsome; cases hsome
+  | some a =>
+    have := address_formula _ 0 a he
+    rw [this, specChain_lift n cfg tch 0 (fun x hx => (hv x hx).1)]
+
+/-- … and an index at or above the repeat count is no path at all: the chain yields no address. -/
+theorem definition_invalid_index (n : Names) (cfg : GlobalConfig) (pre : List (Object × Nat)) (o : Object) (i : Nat)
+    (post : List (Object × Nat)) (hr : RefFree o) (hi : objCount o ≤ i) :
+    evalChain ((pre ++ (o, i) :: post).map (liftStep n cfg)) 0 = none := by
+  cases he : evalChain ((pre ++ (o, i) :: post).map (liftStep n cfg)) 0 with
+  | none => rfl
+  | some a =>
+    have hsome : (evalChain ((pre ++ (o, i) :: post).map (liftStep n cfg)) 0).isSome := by rw [he]; rfl
+    rw [chain_defined_iff] at hsome
+    have hk := hsome (liftStep n cfg (o, i)) (List.mem_map.2 ⟨(o, i), by simp, rfl⟩)
+    simp only [liftStep] at hk
+    rw [← methodOf_count n cfg o hr] at hi
+    unfold Method.addrAt at hk
+    unfold Method.count at hi
+    cases hrp : (methodOf n cfg o).repeat_ with
+    | none => rw [hrp] at hk hi; simp only at hk hi; have hne : i ≠ 0 := by omega
+              simp [hne] at hk
+    | some r => rw [hrp] at hk hi; simp only at hk hi
+                have hne : ¬ i < r.count := by omega
+                simp [hne] at hk
 
 end DDV.Props.C04
